@@ -93,3 +93,68 @@ Example demo_interleave :
   map t_done (exec demo_file (map thread_init demo_calls) [2; 0; 2; 1; 0; 2]%nat) = map (run_history demo_file) demo_calls
   /\ finished (exec demo_file (map thread_init demo_calls) [2; 0; 2; 1; 0; 2]%nat).
 Proof. split; [vm_compute; reflexivity|]. repeat constructor. Qed.
+
+(* ------------------------------------------------------------------ *)
+(* progress and finality *)
+(* a run in which every thread has finished holds, thread by thread, the sequential results *)
+Theorem finished_results f css sched :
+  finished (exec f (map thread_init css) sched) ->
+  map t_done (exec f (map thread_init css) sched) = map (run_history f) css.
+Proof.
+  intros F. pose proof (interleave_results f css sched) as H. revert F H.
+  generalize (exec f (map thread_init css) sched) as ts. intros ts F H.
+  induction H as [|cs t css' ts' Hc Hr IH]; [reflexivity|].
+  inversion F as [|? ? Ft Frest]; subst. cbn [map]. rewrite (Hc Ft). f_equal. apply IH. exact Frest.
+Qed.
+
+Lemma exec_app f ts s1 s2 : exec f ts (s1 ++ s2) = exec f (exec f ts s1) s2.
+Proof. unfold exec. apply fold_left_app. Qed.
+
+Lemma exec_shift f t : forall s rest, exec f (t :: rest) (map S s) = t :: exec f rest s.
+Proof.
+  unfold exec. induction s as [|i s IH]; intros rest; cbn [map fold_left]; [reflexivity|].
+  cbn [step_at]. apply IH.
+Qed.
+
+Lemma exec_head f rest : forall n t, length (t_todo t) = n ->
+  exists t', exec f (t :: rest) (repeat 0%nat n) = t' :: rest /\ t_todo t' = [].
+Proof.
+  unfold exec. induction n as [|n IH]; intros t Hn; cbn [repeat fold_left].
+  - exists t. split; [reflexivity|]. destruct (t_todo t); [reflexivity|discriminate].
+  - cbn [step_at]. apply IH. unfold step_thread. destruct (t_todo t) as [|c todo]; [discriminate|].
+    cbn [t_todo]. cbn [length] in Hn. lia.
+Qed.
+
+(* progress: from every state some schedule lets every thread finish, so the premises of
+   interleave_schedule_independent are met for every family of call lists *)
+Theorem can_finish f : forall ts, exists sched, finished (exec f ts sched).
+Proof.
+  induction ts as [|t rest IH].
+  - exists []. constructor.
+  - destruct IH as (s & Hs). destruct (exec_head f rest (length (t_todo t)) t eq_refl) as (t' & He & Ht').
+    exists (repeat 0%nat (length (t_todo t)) ++ map S s).
+    rewrite exec_app, He, exec_shift. constructor; [exact Ht'|exact Hs].
+Qed.
+
+(* a finished thread list is a fixed point of every further scheduling step: results are final *)
+Lemma step_at_finished f : forall ts i, finished ts -> step_at f ts i = ts.
+Proof.
+  induction ts as [|t rest IH]; intros i F; [reflexivity|].
+  inversion F as [|? ? Ft Fr]; subst. destruct i as [|j]; cbn [step_at].
+  - unfold step_thread. rewrite Ft. reflexivity.
+  - rewrite (IH j Fr). reflexivity.
+Qed.
+
+Theorem finished_stable f : forall extra ts, finished ts -> exec f ts extra = ts.
+Proof.
+  unfold exec. induction extra as [|i s IH]; intros ts F; cbn [fold_left]; [reflexivity|].
+  rewrite (step_at_finished f ts i F). apply IH. exact F.
+Qed.
+
+Theorem interleave_total f css :
+  exists sched, finished (exec f (map thread_init css) sched) /\
+                map t_done (exec f (map thread_init css) sched) = map (run_history f) css.
+Proof.
+  destruct (can_finish f (map thread_init css)) as (s & Hs). exists s. split; [exact Hs|].
+  apply finished_results. exact Hs.
+Qed.
